@@ -11,7 +11,7 @@ use crate::util::rng::Rng;
 use crate::util::run::*;
 use smoltcp::wire::*;
 
-pub const RULE: &str = "RFC 1071 reference vs smoltcp: checksum::data on every length 0..=2048 (thorough 0..=65535) x start alignment 0..7 x {random, zeros, ones, single non-zero byte at every position (len<=512)}; checksum::combine on a boundary grid (thorough: all 2^32 pairs); pseudo_header_v4/v6/pseudo_header on random addresses x every length; for IPv4 header / UDP / TCP / ICMPv4 / ICMPv6 / IGMP: the field written by fill_checksum equals the reference value (UDP: 0 is sent as 0xffff; every length also with contents steered so that the checksum computes to 0), the reference accepts the filled packet, verify_checksum accepts it, and verify_checksum agrees with the reference for checksum fields set to reference +/- k, to 0 / 0xffff, after single-bit flips inside the covered region and after changes outside it.";
+pub const RULE: &str = "RFC 1071 reference vs smoltcp: checksum::data on every length 0..=2048 (thorough 0..=65535) x start alignment 0..7 x {random, zeros, ones, single non-zero byte at every position (len<=512), all ones with one small 2/4/8-byte word in either byte order (the lost-carry pattern of word-parallel sums), boundary-valued 2/4/8-byte words}; checksum::combine on a boundary grid (thorough: all 2^32 pairs); pseudo_header_v4/v6/pseudo_header on random addresses x every length; for IPv4 header / UDP / TCP / ICMPv4 / ICMPv6 / IGMP: the field written by fill_checksum equals the reference value (UDP: 0 is sent as 0xffff; every length also with contents steered so that the checksum computes to 0), the reference accepts the filled packet, verify_checksum accepts it, and verify_checksum agrees with the reference for checksum fields set to reference +/- k, to 0 / 0xffff, after single-bit flips inside the covered region and after changes outside it.";
 
 // ================================================================ the reference
 
@@ -64,6 +64,12 @@ enum Content {
     Zeros,
     Ones,
     Single(usize, u8),
+    /// all ones except one W-byte word (W-aligned from the start of the slice) holding a small value,
+    /// little- or big-endian: the pattern on which a word-parallel sum with a wider accumulator
+    /// loses the last end-around carry (RFC 1071 section 2.(C))
+    Carry { w: usize, word: usize, v: u8, be: bool },
+    /// every W-byte word drawn from a few boundary values
+    Mix { w: usize },
 }
 
 fn content_name(c: Content) -> &'static str {
@@ -72,6 +78,8 @@ fn content_name(c: Content) -> &'static str {
         Content::Zeros => "zeros",
         Content::Ones => "ones",
         Content::Single(..) => "single-byte",
+        Content::Carry { .. } => "ones-with-one-small-word",
+        Content::Mix { .. } => "boundary-words",
     }
 }
 
@@ -95,6 +103,39 @@ impl Buf {
                 s.fill(0);
                 if pos < len {
                     s[pos] = v;
+                }
+            }
+            Content::Carry { w, word, v, be } => {
+                s.fill(0xff);
+                let at = word * w;
+                if at + w <= len {
+                    s[at..at + w].fill(0);
+                    s[if be { at + w - 1 } else { at }] = v;
+                }
+            }
+            Content::Mix { w } => {
+                for chunk in s.chunks_mut(w) {
+                    let n = chunk.len();
+                    match rng.below(6) {
+                        0 => chunk.fill(0),
+                        1 => chunk.fill(0xff),
+                        2 => {
+                            chunk.fill(0);
+                            chunk[0] = 1 + rng.below(255) as u8;
+                        }
+                        3 => {
+                            chunk.fill(0);
+                            chunk[n - 1] = 1 + rng.below(255) as u8;
+                        }
+                        4 => {
+                            chunk.fill(0xff);
+                            chunk[0] = 0xfe;
+                        }
+                        _ => {
+                            chunk.fill(0xff);
+                            chunk[n - 1] = 0xfe;
+                        }
+                    }
                 }
             }
         }
@@ -140,6 +181,18 @@ fn data_case(idx: u64, rng: &mut Rng, _ctx: &Ctx) -> CaseOut {
         // longer buffers: the single byte at the ends and at a few random places
         for pos in [0, 1, len / 2, len - 2, len - 1, rng.usize_below(len), rng.usize_below(len)] {
             contents.push(Content::Single(pos, *rng.pick(&[0x01u8, 0x80, 0xff])));
+        }
+    }
+    for w in [2usize, 4, 8] {
+        let words = len / w;
+        if words >= 2 {
+            for be in [false, true] {
+                // the small value below and above the number of all-ones words
+                contents.push(Content::Carry { w, word: rng.usize_below(words), v: 1, be });
+                contents.push(Content::Carry { w, word: rng.usize_below(words), v: 1 + rng.below((words as u64 - 1).min(254)) as u8, be });
+                contents.push(Content::Carry { w, word: rng.usize_below(words), v: 0xff, be });
+            }
+            contents.push(Content::Mix { w });
         }
     }
     for align in 0..8 {
@@ -605,6 +658,11 @@ fn packets_case(idx: u64, rng: &mut Rng, _ctx: &Ctx) -> CaseOut {
             if !big {
                 contents.push(Content::Zeros);
                 contents.push(Content::Single(rng.usize_below(len), *rng.pick(&[0x01u8, 0x80, 0xff])));
+                if len >= 16 {
+                    let w = *rng.pick(&[2usize, 4, 8]);
+                    contents.push(Content::Carry { w, word: rng.usize_below(len / w), v: 1 + rng.below(3) as u8, be: rng.chance(1, 2) });
+                    contents.push(Content::Mix { w });
+                }
             }
             for c in contents {
                 let flips = if len <= 64 { usize::MAX } else if big { 8 } else { 32 };
